@@ -82,6 +82,23 @@ func (w *World) ApplySC(a *SCAction) bool {
 		}
 		t.Roles[string(addr)] = held
 		w.control(shard, addr, spec.FnSetRole, append([][]byte{t.ID}, roles...), "")
+	case "setrole-again":
+		// OUT OF DISCIPLINE on purpose (C11: any storage state reachable through built-in calls):
+		// the grant of a role the account already holds is sent again; the no-duplicates clause of
+		// C15 is switched off for this (account, token)
+		held := t.Roles[string(addr)]
+		var roles [][]byte
+		for _, r := range a.Roles {
+			if held[r] && r != spec.RoleNFTCreate {
+				roles = append(roles, []byte(r))
+			}
+		}
+		if len(roles) == 0 {
+			return false
+		}
+		w.Ghost.DupAllowed[string(addr)+"\x00"+string(t.ID)] = true
+		w.Stats.Probes["role-grant-resent"]++
+		w.control(shard, addr, spec.FnSetRole, append([][]byte{t.ID}, roles...), "")
 	case "unsetrole":
 		var roles [][]byte
 		held := t.Roles[string(addr)]
